@@ -532,7 +532,7 @@ func (g *G) strLeaf(d int) *Expr {
 	}
 	if g.F.HostileStrings && g.chance("hostilestr", 30) {
 		g.class("string-with-quote-or-backslash")
-		return &Expr{Op: "lit", Ty: TString, S: pick(g, "hslit", []string{"a\"b", "\"", "x\\y", "tab\\t", "q\"\"q", "C:\\dir\\"})}
+		return &Expr{Op: "lit", Ty: TString, S: pick(g, "hslit", []string{"a\"b", "\"", "x\\y", "tab\\t", "q\"\"q", "C:\\\\dir\\\\", "\\\\", "say \"hi\" \\\\", "end\\\\"})}
 	}
 	return &Expr{Op: "lit", Ty: TString, S: pick(g, "slit", []string{"a", "foo", "Foo", "x y", "", "12", "0x1f", "GET"})}
 }
